@@ -329,7 +329,7 @@ Proof.
     assert (K = K0) as -> by (apply norm_inj; auto; congruence).
     apply (names_In (kv0 :: Q') K0 k v HQ (A _ HK0) Hkv). exact Hn.
   - intros [K [HK [Hx Hsub]]] [k v] Hkv. unfold g. apply C. exists K. split; auto. split; auto.
-    apply sub_labels_spec in Hsub; [|apply key_ok_nodup; auto].
+    pose proof (proj1 (sub_labels_spec Q K (key_ok_nodup _ (A _ HK))) Hsub) as Hsub'.
     unfold names. apply in_map_iff. exists (k, v). split; auto.
 Qed.
 
@@ -415,4 +415,29 @@ Proof.
   intros L [K0 s c|Q] K H; cbn in H.
   - destruct (existsb (labels_eqb K0) L); auto. apply in_app_iff in H. destruct H as [H|[<-|[]]]; eauto.
   - apply filter_In in H. tauto.
+Qed.
+
+(* ================= which names satisfy key_ok ================= *)
+
+Lemma parse_key_ok : forall s,
+  has c_lbrace (app_name (parse s)) = false ->
+  forallb (fun kv => negb (has c_colon (fst kv))) (parse s) = true ->
+  key_ok (parse s).
+Proof.
+  intros s Hb Hc. destruct (parse_ok s) as [A B]. split; [exact A|split; [exact B|split; [exact Hb|]]].
+  apply Forall_forall. intros kv Hkv. rewrite forallb_forall in Hc. apply Hc in Hkv.
+  apply negb_true_iff in Hkv. exact Hkv.
+Qed.
+
+(* the hypothesis "no ':' in tag names" is needed: a:b=c and a=b:c share the dimension "a:b:c" *)
+Definition colon_K1 : labels := parse [97; 112; 112; 123; 97; 58; 98; 61; 99; 125].   (* app{a:b=c} *)
+Definition colon_K2 : labels := parse [97; 112; 112; 123; 97; 61; 98; 58; 99; 125].   (* app{a=b:c} *)
+
+Theorem selector_colon_refuted :
+  let ops := [IPut colon_K1 [115; 48] 1; IPut colon_K2 [115; 49] 2] in
+  sub_labels colon_K2 colon_K1 = false /\
+  exists r, ix_select_series colon_K2 (ix_run ops) = Some r /\ In (normalized colon_K1) r.
+Proof.
+  cbv zeta. split; [vm_compute; reflexivity|].
+  eexists. split; [vm_compute; reflexivity|]. vm_compute. auto.
 Qed.
